@@ -34,7 +34,7 @@ _add(
 _add(
     "C02",
     rule="records N in {1,2,3,4,5,8} x dt in {1,0.5,0.1,1.3} x every pointer; select/insert calls with times constructed as k*dt+delta (delta in {0, +-tol/2, +-2tol (1e-9 when tol=0), dt/4, dt/2, 3dt/4, dt-2tol}), scalar / tensor / tensor-with-extra-dim times, per-element mixed on/off-grid, offsets 0..N, tol in {0,1e-6,1e-3}, spy and every shipped interpolation/extrapolation, in-place or not, plus out-of-range calls; one evaluation = one select/insert call judged (spy arguments, value, all slots). distinct = (op, mode, N, dt, tol, grid class, range edge, offset class, function, dtype, inplace) abstractions.",
-    required=["select_calls", "insert_calls", "oor_calls", "spy_interp_args_checked", "spy_extrap_args_checked", "roundtrips", "adjusted_extrapolations", "scalar_tensor_agreements", "expected_errors_seen"],
+    required=["select_calls", "insert_calls", "oor_calls", "spy_interp_args_checked", "spy_extrap_args_checked", "roundtrips", "adjusted_extrapolations", "scalar_tensor_agreements", "expected_errors_seen", "nonfloat_storage_selects", "nonfloat_elapsed_checked"],
     floor={"quick": 300, "thorough": 1500},
     text="Held on every select/insert call explored: times are constructed from an integer step and a symbolic offset so the oracle knows the slot, grid membership, bracketing samples and elapsed time; a spy interpolation/extrapolation records the arguments the real code passes, every slot of storage is compared after each insert, scalar and tensor forms are cross-checked and range errors are demanded.",
     technique="runtime monitoring: argument-spy oracle + list-model comparison on the real RecordTensor.select/insert over generated on/off-grid times",
@@ -117,7 +117,7 @@ _add(
          "with reduced magnitudes at the stated limit, range invariant checked after every application. distinct = "
          "(operation, bound, half, reduction and route, dtype, inside/outside, contribution form) abstractions.",
     required=["contributions", "applications", "second_applications", "permutation_checks",
-              "custom_reduction_applications", "longrun_applications"],
+              "custom_reduction_applications", "longrun_applications", "bound_removals"],
     floor={"quick": 150, "thorough": 300},
     text="Held on every interleaving explored: parameter values after each update / updatesome / clear on the real "
          "Updater are compared with old + U(reduce(pos)) - L(reduce(neg)) computed from recorded parts, a spy reduction "
@@ -155,7 +155,7 @@ _add(
          "twin is compared bit-for-bit. One evaluation = one step or one delayed query; distinct = (synapse, dt, "
          "delay, tolerance, interpolation, query class, overbound setting, train, inplace, batch) abstractions.",
     required=["steps_checked", "queries_checked", "twin_comparisons", "queries.in", "queries.beyond", "queries.negative",
-              "queries.limit", "queries.band", "queries.snap"],
+              "queries.limit", "queries.band", "queries.snap", "clears"],
     floor={"quick": 300, "thorough": 800},
     text="Held on every spike train and selector explored: the real synapses (float64) are stepped on generated trains, "
          "the reported current is compared with the closed-form impulse-response sum over the recorded inputs, delayed "
@@ -196,7 +196,7 @@ _add(
          "contracted with the weight with the forward output; lateral diagonal invariant after each of 4-14 random "
          "mutating operations (weight/delay assignment, updater application, clamp / normalise hooks, forward). "
          "distinct = geometry / shape-class abstractions.",
-    required=["forward_checks", "conv_geometries", "helper_checks", "lateral_diagonal_checks"],
+    required=["forward_checks", "conv_geometries", "helper_checks", "lateral_diagonal_checks", "delayed_linear_cases"],
     floor={"quick": 150, "thorough": 3000},
     exhaustive={"thorough": ["conv2d: all square inputs 3..9, C,F in 1..3, kernels 1..3 x 1..3, stride 1..3, padding 0..2, dilation 1..2 with non-empty output"]},
     text="Held on every input and geometry explored: the real connections (float64) are driven with arbitrary real "
@@ -254,7 +254,7 @@ _add(
          "accumulator must receive the sum of the two cells' rules), all seven STDP-family trainers. One evaluation = one layer step + trainer call + update judged (parts, net change, "
          "applied change) against sums over recorded spike times; non-trivial when at least one spike pair contributes; "
          "distinct = (trainer, cell type, delay mode, sign mode, trace mode, reduction, batch, reward kind, pairs/no pairs).",
-    required=["trainer_steps_checked", "steps_with_pairs", "exhaustive_histories", "per_cell_override_cases", "multicell_steps_checked", "multicell_shared_connection_steps"],
+    required=["trainer_steps_checked", "steps_with_pairs", "exhaustive_histories", "per_cell_override_cases", "multicell_steps_checked", "multicell_shared_connection_steps", "fractional_delay_steps_checked"],
     floor={"quick": 60, "thorough": 150},
     exhaustive={"quick": ["all 4^4 joint pre/post histories of one synapse x 4 sign modes x 2 trace modes"],
                 "thorough": ["all 4^5 joint pre/post histories of one synapse x 4 sign modes x 2 trace modes"]},
